@@ -107,6 +107,43 @@ def oracle(ctx, obs, kw, meta):
                           rep)
 
 
+def weight_laws(ctx, obs, meta):
+    """laws of Props/C04 (c04_weights_range / _monotone / _symmetric, c04_chisq_weighted_le) on the real
+    `compute_contact_point_weights` / `residual` at the fitted curve's abscissa and reported parameters.
+    Multiplication by a weight in [0, 1] and monotone rounding make every comparison exact in doubles."""
+    from nanite.model import residuals as _res, models_available
+    if not obs["success"] or "pk" not in obs:
+        return
+    rep = {"input": meta}
+    xk = obs["x"] * obs["k"]
+    cpk = float(obs["pk"]["contact_point"].value)
+    wd = float(obs["wd"]) if obs["wd"] else 5e-7
+    w = np.asarray(_res.compute_contact_point_weights(cp=cpk, delta=xk.copy(), weight_dist=wd), dtype=float)
+    if w.shape != xk.shape or np.any(~(w >= 0)) or np.any(~(w <= 1)):
+        ctx.violation("weights-out-of-range", "contact-point weights leave [0, 1]", rep)
+        return
+    order = np.argsort(np.abs(xk - cpk), kind="stable")
+    if np.any(np.diff(w[order]) < 0):
+        ctx.violation("weights-not-monotone", "a point farther from the contact point weighs less than a nearer "
+                      "one", rep)
+    d = np.abs(xk - cpk)
+    wm = np.asarray(_res.compute_contact_point_weights(cp=cpk, delta=cpk - (xk - cpk), weight_dist=wd), dtype=float)
+    # (cp - (x - cp)) - cp rounds; compare only where the mirrored distance is reproduced exactly
+    same = np.abs((cpk - (xk - cpk)) - cpk) == d
+    if np.any(wm[same] != w[same]):
+        ctx.violation("weights-not-symmetric", "the weights differ on the two sides of the contact point at equal "
+                      "distance", rep)
+    md = models_available[obs["fp"]["model_key"]]
+    used = obs["used"]
+    r_w = np.asarray(_res.residual(obs["pk"], xk.copy(), obs["y"].copy(), md.model, weight_cp=wd), dtype=float)
+    r_0 = np.asarray(_res.residual(obs["pk"], xk.copy(), obs["y"].copy(), md.model, weight_cp=0), dtype=float)
+    if np.any(np.abs(r_w) > np.abs(r_0)):
+        ctx.violation("weighted-residual-larger", "a weighted residual exceeds the unweighted one in magnitude", rep)
+    if float(np.sum(r_w[used] ** 2)) > float(np.sum(r_0[used] ** 2)) * (1 + 8 * EPS):
+        ctx.violation("weighted-chi-square-larger", "at the same parameters the weighted sum of squares exceeds the "
+                      "unweighted one", rep)
+
+
 def model_line(obs, kw):
     nv = sum(1 for n in kw["params_initial"] if kw["params_initial"][n].vary)
     mv = obs.get("mvals")
@@ -299,6 +336,8 @@ def run(ctx):
                          f"weight={'on' if meta['weight_cp'] else 'off'}", "fit=" + meta["fit_model"],
                          f"passes={len(rec.calls)}", "segment=" + meta["segment"]])
         oracle(ctx, obs, kw, meta)
+        if obs["used"] is not None:
+            weight_laws(ctx, obs, meta)
         if obs["used"] is not None and len(obs["x"]) <= 700:
             lines.append(model_line(obs, kw))
             keep.append((obs, meta))
